@@ -362,15 +362,16 @@ Case gen_case(const std::string &prop, const std::string &tier, uint64_t verif_s
         if (quick && which == 8 && (index / 48) % 4 != 0) which = 0; // the 32767-frame objects are slow: fewer of them in quick
         LimitItem a = add_limit(r, plan, which, level, quick);
         plan.tag = a.tag;
+        bool shapeItem = which == 6 || which == 7 || which == 8 || which == 11;
         bool beyond = a.beyond;
         if ((index / 48) % 2 == 1 && which != 8 && which != 10 && which != 11) { // pairs
             int w2 = static_cast<int>(r.below(10));
             if (w2 == 8 || (w2 >= 6 && which >= 6)) w2 = 0;
-            if (w2 != which) { LimitItem b = add_limit(r, plan, w2, static_cast<int>(r.below(4)), quick); plan.tag += "&" + b.tag; beyond = beyond || b.beyond; }
+            if (w2 != which) { LimitItem b = add_limit(r, plan, w2, static_cast<int>(r.below(4)), quick); plan.tag += "&" + b.tag; beyond = beyond || b.beyond; if (w2 >= 6 && w2 <= 8) shapeItem = true; }
         }
         if (beyond) plan.flags |= 1;
         // some ordinary content around it
-        if (which != 6 && which != 7 && which != 8 && which != 11 && r.chance(1, 2)) {
+        if (!shapeItem && r.chance(1, 2)) { // (never around a points/channels/frames item: its own declarations would push the count past the level the tag claims)
             Profile small = pf; small.max_frames = 3; small.pct_mid_save = 0; small.pct_mid_reload = 0; small.final_save_reload = false; small.pct_print = 0;
             small.pct_dev_frame = 0; small.pct_extend = 0;
             Plan tmp; gen_history(r, small, tmp);
